@@ -85,6 +85,48 @@ def discover_spawn_calls(exes, seed, tag):
     return out
 
 
+# calls of the finishing thread that cannot be refused by a kernel (exit never returns; a wake-up has no failure
+# a caller could act on) and the monitor's own marker call
+_NOT_EXIT_CALLS = {syslog.NR["futex"], 60, 231, 186, 0x5EC0}   # 186: the probe's own gettid (cannot fail)
+
+
+def exit_call_sequence(evs):
+    """From an `exit_fault_discover` log: the system calls each spawned thread makes after its closure's last act
+    (REPORT 80) until it exits, as (nr, occurrence) pairs; None if the un-injected threads do not agree."""
+    seqs, cur = [], {}
+    for e in evs:
+        if e.k == "M" and e.kind == syslog.MARK["REPORT"] and e.a[0] == 80:
+            cur[e.tid] = []
+            seqs.append(cur[e.tid])
+        elif e.k == "S" and e.tid in cur and e.nr not in _NOT_EXIT_CALLS:
+            cur[e.tid].append(e.nr)
+    if not seqs or any(q != seqs[0] for q in seqs[1:]):
+        return None
+    out, seen = [], {}
+    for nr in seqs[0]:
+        out.append((nr, seen.get(nr, 0)))
+        seen[nr] = seen.get(nr, 0) + 1
+    return out
+
+
+def discover_exit_calls(exes, seed, tag):
+    """Run `exit_fault_discover` under sysmon for every flavour; {(mode, release): [(nr, occurrence), ...] or None}."""
+    jobs, logs = [], []
+    for m, r, exe in exes:
+        log = tmp_log(tag + "-exitdiscover")
+        logs.append(log)
+        jobs.append(sysmon_job(exe, "exit_fault_discover", seed, 3, log, timeout_s=20))
+    out = {}
+    for (m, r, exe), log, rr in zip(exes, logs, vlib.run_parallel(jobs)):
+        try:
+            evs = syslog.parse(log)
+            os.unlink(log)
+        except OSError:
+            evs = []
+        out[(m, r)] = exit_call_sequence(evs) if rr["rc"] == 0 else None
+    return out
+
+
 def hang_certificate(evs):
     """After REPORT(78) (about to join the handle of a thread that was never created): the watchdog fired,
     the only remaining thread sits in futex(FUTEX_WAIT, val=1). Returns witness text or None."""
